@@ -394,10 +394,24 @@ func (dec *Decoder) next(n int) (data []byte, safe bool) {
 	if (dec.head == dec.tail) && !dec.loadMore() {
 		return nil, true
 	}
+	if n < 0 {
+		// the length comes from the wire
+		if dec.Error == nil {
+			dec.Error = DecodeError("hprose/io: negative length")
+		}
+		return nil, true
+	}
 	remain := dec.tail - dec.head
 	if remain >= n {
 		data = dec.buf[dec.head : dec.head+n]
 		dec.head += n
+		return data, false
+	}
+	if dec.reader == nil {
+		// the whole input is in memory and it is shorter than n: hand out what is left
+		// (loadMore reports io.EOF) instead of allocating n bytes on the word of the wire
+		data = dec.buf[dec.head:dec.tail]
+		dec.loadMore()
 		return data, false
 	}
 	safe = true
